@@ -266,8 +266,18 @@ let set_quirks (b : String.t) =
   let g i = String.length b > i && b.[i] = '1' in
   quirks := { q_lit_eof = g 0; q_stale_ctx = g 1; q_recover_scope = g 2; q_memo_nocharge = g 3; q_memo_label = (String.length b <= 4 || b.[4] = '1'); q_lr_memo_state = (String.length b <= 5 || b.[5] = '1'); q_memo_expected = (String.length b <= 6 || b.[6] = '1') }
 
-let run_case (fuel : int) (sx : sexp) : String.t =
+let init_of (items : sexp list) : (n list * sval) list =
+  List.map (function
+    | L (A "cell" :: k :: zs) -> (hexb k, SCell (List.map (fun z -> z_of_int (int_a z)) zs))
+    | L [A "imm"; k; z] -> (hexb k, SImm (z_of_int (int_a z)))
+    | _ -> failwith "bad init entry") items
+
+let rec run_case (fuel : int) (sx : sexp) : String.t =
+  run_case_init fuel sx []
+and run_case_init (fuel : int) (sx : sexp) (init0 : (n list * sval) list) : String.t =
   match sx with
+  | L [A "case"; id; tmpl; opts; rules; blocks; L (A "init" :: items); input] ->
+      run_case_init fuel (L [A "case"; id; tmpl; opts; rules; blocks; input]) (init_of items)
   | L [A "case"; A id;
        L [A "tmpl"; opt; gs; lr; bl];
        L [A "opts"; memo; dbg; stats; recov; allowinv; maxexpr; entry; file];
@@ -280,7 +290,7 @@ let run_case (fuel : int) (sx : sexp) : String.t =
         cT = { t_optimize = bool_a opt; t_globalstate = bool_a gs; t_leftrec = bool_a lr; t_basiclatin = bool_a bl };
         cO = { o_memoize = bool_a memo; o_debug = bool_a dbg; o_stats = bool_a stats; o_recover = bool_a recov;
                o_allowinvalid = bool_a allowinv; o_maxexpr = n_of_int (int_a maxexpr);
-               o_entry = hexb entry; o_filename = hexb file };
+               o_entry = hexb entry; o_filename = hexb file; o_initstate = init0 };
         cData = hexb inp;
         cG = List.map rule_of rules;
         cE = env_of_blocks (List.map block_of blocks) } in
